@@ -13,6 +13,9 @@
   Conventions: a class pointer is a value `Cls` (`cls is lit` is equality of these values: two class objects with the
   same name are two different values); an instance pointer is `Inst` (identity + which member words are non-NULL);
   NULL is `none`.  Core Lean only.
+  Last sections: NULL as the class argument (`scanNull`); the heap of several type objects whose CLASS objects are
+  themselves run-time type objects — names read when a lookup runs, addresses memoised, `Type_New` rewriting `__Name`
+  in place, deletion and re-use of an address (`Heap`, `Heap.construct`, `Heap.retarget`, `Heap.step`, `specHeap`).
 -/
 namespace Cello.Dispatch
 
